@@ -257,6 +257,13 @@ def exact_cases(count, rng):
             geo_line("v2add", a + b), geo_line("p2addv", a + b), geo_line("p2subv", a + b), geo_line("p2sub", a + b),
             geo_line("v2tuple", a), geo_line("p2tuple", a), geo_line("v3fromv2", a), geo_line("p3fromp2", a),
         ]
+        # directions over many decades (exact dyadic scaling 2^-58 .. 2^50): the null-vector guard is scale free
+        for _ in range(2):
+            sc = Fr(2) ** rng.randint(-58, 50)
+            d = [dy(rng) * sc, dy(rng) * sc]
+            if rng.random() < 0.25:
+                d[rng.randrange(2)] = Fr(0)
+            lines += [geo_line("v2unitdir", d), geo_line("v2normaldir", d)]
         cases.append(Case(f"law2-{k}", lines, oracle="law2", meta={"sig": "laws-2d"}))
         # ---- 3-D laws
         a = [dy(rng) for _ in range(3)]
@@ -276,6 +283,12 @@ def exact_cases(count, rng):
             geo_line("v3add", a + b), geo_line("p3addv", a + b), geo_line("p3subv", a + b), geo_line("p3sub", a + b),
             geo_line("v3tuple", a), geo_line("p3tuple", a),
         ]
+        for _ in range(2):
+            sc = Fr(2) ** rng.randint(-58, 50)
+            d = [dy(rng) * sc for _ in range(3)]
+            if rng.random() < 0.25:
+                d[rng.randrange(3)] = Fr(0)
+            lines.append(geo_line("v3unitdir", d))
         cases.append(Case(f"law3-{k}", lines, oracle="law3", meta={"sig": "laws-3d"}))
     return cases
 
